@@ -319,3 +319,12 @@ package templ
 //@   modifies cv().ss, tr(w), failedDuring
 //@   loop 1 invariant monotone(old(cv().ss), v.ss) && forall(k, 0, iter, has(v.ss, cat("class_", cssm.CSSHandler.Classes[k].ID)))
 //@   assert before cssm.Next.ServeHTTP#1: forall(k, 0, len(cssm.CSSHandler.Classes), has(v.ss, cat("class_", cssm.CSSHandler.Classes[k].ID)))
+
+// ---------------------------------------------------------------------------
+// C05: css component expressions: one declaration, both parts from the sanitisers (the value of a
+// templ.SafeCSSProperty is trusted by design and only the name is sanitised).
+//@ lemma css_decl_item(p, v) [C05]: inL(p, CSS_NAME_SAFE) && inL(v, CSS_VALUE_SAFE) ==> inL(cat(p, ":", v, ";"), CSS_DECL_ITEM) by reglang
+//@ func SanitizeCSS [C05]
+//@   use return.2: css_decl_item(p, v)
+//@   assert return.2: inL(result, CSS_DECL_ITEM)
+//@   assert return.1: inL(sub(result, 0, len(result) - len(value) - 2), CSS_NAME_SAFE) && isSuffix(cat(":", value, ";"), result)
